@@ -23,8 +23,11 @@ from nauyaca.client.session import GeminiClient
 from nauyaca.security.certificates import get_certificate_fingerprint
 from nauyaca.security.tofu import TOFUDatabase
 
-from vf import HarnessError
-from vf.modelsql import DB, Ctl, FakeDatetime, FakeSqlite
+import asyncio as _asyncio
+import sqlite3 as _sqlite3
+
+from vf import HarnessError, bind
+from vf.modelsql import DB, Ctl, FakeDatetime, FakeSqlite, install_clock
 from vf.stubs import FakeAsyncio, FakeTransport, MiniLoop
 
 
@@ -99,10 +102,10 @@ class Env:
     def __init__(self, tofu_on=True):
         self.db = DB()
         self.ctl = Ctl()
-        tofu.sqlite3 = FakeSqlite(self.db, self.ctl)
-        tofu.datetime = FakeDatetime
+        bind(tofu, _sqlite3, FakeSqlite(self.db, self.ctl))
+        install_clock(tofu)
         self.loop = MiniLoop()
-        cs.asyncio = FakeAsyncio(self.loop)
+        bind(cs, _asyncio, FakeAsyncio(self.loop))
         self.loop.connector = self._connect
         self.conns = []
         self.cert_for = {}            # (host, port) -> index into DERS | "bad" | "nossl" | "nocert"
